@@ -253,7 +253,11 @@ export class ProcGenWrapper {
         }
         const elem = this.shadowRoot.createTextNode(textContent)
         elem.destroyBackendElementOnRemoval()
-        if (slotElement) Element.setSlotElement(elem, slotElement)
+        if (slotElement) {
+          Element.setSlotElement(elem, slotElement)
+          const tmplArgs = getTmplArgs(elem)
+          tmplArgs.dynamicSlotNameMatched = true
+        }
         if (textInit) textInit(elem)
         childNodes.push(elem)
       },
